@@ -284,7 +284,7 @@ impl Prop for C08Prop {
         ];
         v.extend(crate::props::wf::wf_streams(tier, 1));
         // programs with verbatim regions and asm bodies (C07's generator), judged by this oracle
-        v.push(Stream::random("toggled", if q { 500 } else { 6000 }, 700));
+        v.push(Stream::random("toggled", if q { 3000 } else { 30000 }, 700));
         // statements with multi-line string literals (C12's shapes): the re-indent / re-wrap rounds
         v.push(Stream::random("lits", if q { 3000 } else { 30000 }, 300));
         v
